@@ -67,7 +67,7 @@ pub(crate) fn mk_server(name: NormalizedString, k: [u8; 40], challenge: [u8; 16]
 
 /// C05: one reconnect attempt from an arbitrary session state.
 #[kani::proof]
-#[kani::unwind(200)]
+#[kani::unwind(100)]
 #[kani::stub(core::str::from_utf8, verif_oracle::from_utf8_model)]
 fn c05_attempt() {
     let name = any_name(16);
@@ -108,7 +108,7 @@ fn c05_attempt() {
 /// C05: a legitimate client reconnects any number of times in a row; a captured pair is not accepted
 /// again (under: the refreshed challenge differs from the old one, SHA-1 collision free on the queries made).
 #[kani::proof]
-#[kani::unwind(200)]
+#[kani::unwind(100)]
 #[kani::stub(core::str::from_utf8, verif_oracle::from_utf8_model)]
 fn c05_roundtrip() {
     let name = any_name(16);
@@ -149,7 +149,7 @@ pub(crate) fn mk_proof(name: NormalizedString, b_pub: PublicKey, salt: [u8; 32],
 }
 
 #[kani::proof]
-#[kani::unwind(200)]
+#[kani::unwind(42)]
 #[kani::stub(core::str::from_utf8, verif_oracle::from_utf8_model)]
 #[kani::stub(crate::srp_internal::calculate_session_key, sih::stub_session_key)]
 #[kani::stub(crate::srp_internal::calculate_client_proof, sih::stub_client_proof)]
@@ -204,7 +204,7 @@ fn c02_server_decision() {
 
 /// C01/C03/C15: registration and challenge construction wire the right values into the right places.
 #[kani::proof]
-#[kani::unwind(200)]
+#[kani::unwind(42)]
 #[kani::stub(core::str::from_utf8, verif_oracle::from_utf8_model)]
 #[kani::stub(crate::srp_internal::calculate_password_verifier, sih::stub_verifier)]
 #[kani::stub(crate::srp_internal::calculate_server_public_key, sih::stub_server_public_key)]
